@@ -20,7 +20,9 @@ REQUIRED_THEOREMS = [
     'C07_constructor_names', 'C07_setpop_checked', 'C07_setpop_out_of_range',
     'C07_unstable_counterexample', 'C07_unstable_acts_on', 'C07_setpop_counterexample',
     'C07_callerorder_counterexample', 'C07_legacy_stable_partial', 'C07_th_bridge',
-    'C07_set_n_ids_counterexample', 'C07_set_n_ids_partial', 'C07_set_n_ids_intended']
+    'C07_set_n_ids_counterexample', 'C07_set_n_ids_fresh', 'C07_set_n_ids_all_selected',
+    'C07_set_n_ids_history', 'C07_set_n_ids_keeps_selection', 'C07_names_reset', 'C07_namesOk_step',
+    'C07_equiv_indiv_return_eta', 'C07_set_n_ids_raise_counterexample']
 RULE = ('wrapped model in {Gaussian, LogNormal} x {centred, non-centred}, TruncatedGaussian, Pooled, '
         'Heterogeneous; n_dim 1..6, n_cov 1..3, n_ids 1..5; selection = constructor default or a random '
         'non-empty list of in-range [param, dim] pairs of every size, any order, with duplicates, given as '
@@ -180,6 +182,33 @@ def gen_case(rng, force_kind=None, wide=False):
             ops.insert(0, ['D', ['x%d' % j for j in range(n_dim)]])
     if route == 'pop2':
         ops.append(['P', rand_sel()])
+    # configuration history around the selection: set_n_ids sequences (for a heterogeneous wrapped model
+    # they change the parameter table; n0 = individuals at construction), user-chosen names and their reset
+    rh = np.random.default_rng(int(rng.integers(0, 2 ** 31)))
+    n0 = n_ids
+    pre, post = [], []
+    if kind == 'H' and rh.random() < 0.7:
+        n0 = int(rh.integers(1, 7))
+    if n0 != n_ids or rh.random() < 0.4:
+        pre = [['N', int(rh.integers(1, 8))] for _ in range(int(rh.integers(0, 3)))] + [['N', n_ids]]
+    if rh.random() < 0.4:
+        explicit = [o for o in ops if o[0] == 'P']
+        if kind == 'H' and explicit and rh.random() < 0.5:
+            top = max(p for p, _ in explicit[-1][1])
+            if top >= 1:                      # a row of the selection disappears: must raise, unchanged
+                post.append(['N', int(rh.integers(1, top + 1))])
+        post += [['N', n_ids + int(rh.integers(1, 4))]] * int(rh.integers(0, 2))
+        if kind == 'H' and not explicit and rh.random() < 0.5:
+            post.append(['N', int(rh.integers(1, 7))])
+        post.append(['N', n_ids])
+    if rh.random() < 0.15:
+        k_ = int(rh.integers(0, len(ops) + 1))
+        ops.insert(k_, ['M'])
+        if rh.random() < 0.7:
+            ops.insert(int(rh.integers(k_ + 1, len(ops) + 1)), ['R'])
+        else:
+            post.append(['R'])
+    ops = pre + ops + post
     form = str(rng.choice(['lists', 'tuples', 'ndarray']))
     cov_names = None if rng.random() < 0.5 else ['age', 'wt', 'sex', 'bmi', 'crcl'][:n_cov]
     dim_names = None if rng.random() < 0.6 else ['a', 'b', 'c', 'd', 'e', 'f', 'g', 'h', 'k'][:n_dim]
@@ -223,7 +252,9 @@ def gen_case(rng, force_kind=None, wide=False):
     if dyadic and rng.random() < 0.3:
         perturb = [int(rng.integers(n_ids)), int(rng.integers(n_dim))]
     w = None if rng.random() < 0.35 else rng.normal(size=(n_ids, n_dim))
-    return {'kind': kind, 'n_dim': n_dim, 'n_cov': n_cov, 'n_ids': n_ids, 'ops': ops, 'form': form,
+    eta_form = str(rng.choice(['matrix', 'garbage', 'empty']))
+    return {'kind': kind, 'n_dim': n_dim, 'n_cov': n_cov, 'n_ids': n_ids, 'n0': n0, 'ops': ops, 'form': form,
+            'eta_form': eta_form,
             'cov_names': cov_names, 'dim_names': dim_names, 'theta0': theta0, 'beta': beta, 'cov': cov,
             'obs': obs, 'eta': eta, 'perturb': perturb, 'w': w, 'boundary': boundary, 'route': route,
             'seed': int(rng.integers(0, 2 ** 31)), 'fd_seed': int(rng.integers(0, 2 ** 31)),
@@ -256,13 +287,15 @@ def per_ind_ll(base, kind, th, obs):
     return score_sum(vals)
 
 
-def per_ind_indiv(base, kind, th, eta):
+def per_ind_indiv(base, kind, th, eta, return_eta=False):
     rows = []
     for i in range(len(th)):
         if kind == 'H':
-            rows.append(np.asarray(base.compute_individual_parameters(th[i].flatten(), eta))[i])
+            rows.append(np.asarray(base.compute_individual_parameters(
+                th[i].flatten(), eta, return_eta=return_eta))[i])
         else:
-            rows.append(np.asarray(base.compute_individual_parameters(th[i].flatten(), eta[i:i + 1]))[0])
+            rows.append(np.asarray(base.compute_individual_parameters(
+                th[i].flatten(), eta[i:i + 1], return_eta=return_eta))[0])
     return np.array(rows, float)
 
 
@@ -336,30 +369,82 @@ def _run_case(ctx, chi, case):
     pd_ = per_dim(kind, n_ids)
     n_pop = pd_ * n_dim
     inp = dict(case)
-    base = make_base(chi, kind, n_dim, n_ids)
+    n0 = case.get('n0') or n_ids
+    base = make_base(chi, kind, n_dim, n_ids)           # reference: the wrapped model as it has to end up
     lcm = chi.LinearCovariateModel(n_cov, cov_names=case['cov_names'])
-    cpm = chi.CovariatePopulationModel(base, lcm, dim_names=case['dim_names'])
+    cpm = chi.CovariatePopulationModel(make_base(chi, kind, n_dim, n0), lcm, dim_names=case['dim_names'])
     base.set_dim_names(case['dim_names'])
+    default_raw = list(make_base(chi, kind, n_dim, n0).get_parameter_names(exclude_dim_names=True))
     raw_base_names = list(base.get_parameter_names(exclude_dim_names=True))
     dim_names = list(base.get_dim_names())
 
-    # ---- selection history through the population model
-    sel = [(p, d) for p in range(pd_) for d in range(n_dim)]
+    # ---- configuration history through the population model. The harness tracks what the documented
+    # semantics make of it: rows of the wrapped model, the selection (None = the constructor's "all")
+    pd_cur = per_dim(kind, n0)
+    explicit = None
+    custom = False
+    model_ops = []
+    outcomes = []
     for o in case['ops']:
         if o[0] == 'P':
             arg = as_input(o[1], case['form'])
             out = call(cpm.set_population_parameters, arg)
             out = 'ok' if out is None else out
-            S(ctx, 'C07.set_population_parameters', out == 'ok', inp, {'raised': out, 'indices': o[1]})
-            mo = ctx.model('C07.select', pd_, n_dim, [list(x) for x in o[1]])
+            in_range = all(0 <= p < pd_cur and 0 <= d < n_dim for p, d in o[1])
+            S(ctx, 'C07.set_population_parameters', (out == 'ok') == in_range, inp,
+              {'raised': out, 'indices': o[1], 'rows': pd_cur})
+            mo = ctx.model('C07.select', pd_cur, n_dim, [list(x) for x in o[1]])
             ctx.agree('C07.select.outcome', out, mo[0], inp)
             if out != 'ok':
                 return
-            sel = norm_sel(o[1])
-        else:
+            explicit = norm_sel(o[1])
+            model_ops.append(o)
+            outcomes.append('ok')
+        elif o[0] == 'D':
             cpm.set_dim_names(o[1])
             base.set_dim_names(o[1])
             dim_names = list(o[1])
+            model_ops.append(o)
+            outcomes.append('ok')
+        elif o[0] == 'N':
+            n = int(o[1])
+            changes = kind == 'H' and n != pd_cur
+            expect = 'ok'
+            if changes and explicit is not None and max(p for p, _ in explicit) >= n:
+                expect = 'err:valueError'
+            before = (cpm.n_parameters(), list(cpm.get_parameter_names()))
+            out = call(cpm.set_n_ids, n)
+            out = 'ok' if out is None else out
+            S(ctx, 'C07.set_n_ids/outcome', out == expect, inp, {'set_n_ids': n, 'raised': out, 'expected': expect,
+                                                                 'rows': pd_cur, 'selection': explicit})
+            if out != 'ok':
+                after = (cpm.n_parameters(), list(cpm.get_parameter_names()))
+                S(ctx, 'C07.set_n_ids/unchanged_after_raise' + ('/user_names' if custom else ''),
+                  before == after, inp, {'set_n_ids': n, 'names_before': before[1], 'names_after': after[1]})
+            elif changes:
+                pd_cur = n
+                custom = False
+            model_ops.append(['N', n])
+            outcomes.append(out)
+        elif o[0] == 'M':
+            n_now = cpm.n_parameters()
+            npop_now = pd_cur * n_dim
+            pop_c = ['q%d' % j for j in range(npop_now)]
+            beta_c = ['b%d' % j for j in range(n_now - npop_now)]
+            out = call(cpm.set_parameter_names, pop_c + beta_c)
+            S(ctx, 'C07.set_parameter_names', out is None, inp, {'raised': out})
+            custom = True
+            model_ops.append(['M', pop_c, beta_c])
+            outcomes.append('ok')
+        else:   # 'R'
+            out = call(cpm.set_parameter_names, None)
+            S(ctx, 'C07.set_parameter_names', out is None, inp, {'raised': out, 'reset': True})
+            custom = False
+            model_ops.append(['R', default_raw])
+            outcomes.append('ok')
+    if pd_cur != pd_ or custom:
+        return      # (generated histories end with the case's own n_ids and with default names)
+    sel = explicit if explicit is not None else [(p, d) for p in range(pd_) for d in range(n_dim)]
     if case.get('cov_rename'):
         cpm.set_covariate_names(['z%d' % (j + 7) for j in range(n_cov)])
     cov_names = list(cpm.get_covariate_names())
@@ -372,8 +457,21 @@ def _run_case(ctx, chi, case):
     # ---- names, counts
     names = list(cpm.get_parameter_names())
     names_x = list(cpm.get_parameter_names(exclude_dim_names=True))
-    mo = ctx.model('C07.names', pd_, n_dim, n_cov, raw_base_names, case['dim_names'] or
-                   ['Dim. %d' % (j + 1) for j in range(n_dim)], cov_names, case['ops'], False)
+    mo = ctx.model('C07.names', per_dim(kind, n0), n_dim, n_cov, default_raw, case['dim_names'] or
+                   ['Dim. %d' % (j + 1) for j in range(n_dim)], cov_names, model_ops, False, kind == 'H')
+    ctx.agree('C07.history.outcomes', outcomes, mo[4], inp)
+    # the same configuration reached directly: a fresh model
+    fresh = chi.CovariatePopulationModel(make_base(chi, kind, n_dim, n_ids),
+                                         chi.LinearCovariateModel(n_cov, cov_names=cov_names), dim_names=dim_names)
+    if explicit is not None:
+        fresh.set_population_parameters([o for o in case['ops'] if o[0] == 'P'][-1][1])
+    # (as sets: the internal order of the selection is not part of the statement; that every name sits on
+    #  the beta it announces is checked below, for the model with the history)
+    S(ctx, 'C07.history_vs_fresh/' + cname, sorted(names) == sorted(fresh.get_parameter_names())
+      and sorted(names_x) == sorted(fresh.get_parameter_names(exclude_dim_names=True))
+      and cpm.n_parameters() == fresh.n_parameters(), inp,
+      {'names': names, 'fresh': list(fresh.get_parameter_names()), 'n_parameters': cpm.n_parameters(),
+       'fresh_n_parameters': fresh.n_parameters()})
     pop_names = list(base.get_parameter_names())
     S(ctx, 'C07.n_parameters', cpm.n_parameters() == n_pop + n_sel * n_cov == len(names), inp,
              {'n_parameters': cpm.n_parameters(), 'names': len(names)})
@@ -494,12 +592,34 @@ def _run_case(ctx, chi, case):
     elif not isinstance(psi_l, str) and kind in ('Gnc', 'LNnc'):
         bad_rows = np.any(th[:, 1, :] < 0, axis=1)
         S(ctx, 'C07.equiv_indiv/negscale_rows_nan', bool(np.all(np.isnan(psi_l[bad_rows]))), inp)
-    flat = call(cpm.compute_individual_parameters, params, eta.flatten(), cov) if kind in HIER else None
     if kind in HIER:
         cpm.set_n_ids(n_ids)
         flat = call(cpm.compute_individual_parameters, params, eta.flatten(), cov)
         S(ctx, 'C07.set_n_ids', core.close(flat if isinstance(flat, str) else np.asarray(flat, float), psi_l),
                  inp, {'flat_eta': flat})
+    # return_eta=True — the call HierarchicalLogLikelihood / ComposedPopulationModel make first. Models
+    # with individual-level entries hand eta back; pooled / heterogeneous models ignore the flag AND the
+    # eta they are given (a dummy block or nothing): their answer is vartheta_i
+    eta_in = eta
+    if kind in ('P', 'H'):
+        eta_in = {'matrix': eta, 'garbage': np.full((n_ids, n_dim), 99.0),
+                  'empty': np.zeros((0,))}[case.get('eta_form', 'matrix')]
+    psi_e = call(cpm.compute_individual_parameters, params, eta_in, cov, return_eta=True)
+    psi_e = psi_e if isinstance(psi_e, str) else np.asarray(psi_e, float)
+    ctx.agree('C07.indiv.return_eta', psi_e, me[4], inp)
+    spec_e = call(per_ind_indiv, base, kind, th, eta, True)
+    S(ctx, 'C07.equiv_indiv_return_eta/' + cname, core.close(psi_e, spec_e), inp,
+      {'chi': psi_e, 'per_individual': spec_e, 'eta_given': case.get('eta_form', 'matrix')})
+    if kind in ('P', 'H'):
+        psi_d = call(cpm.compute_individual_parameters, params, eta_in, cov)
+        S(ctx, 'C07.equiv_indiv/' + cname, core.close(psi_d if isinstance(psi_d, str) else
+                                                      np.asarray(psi_d, float), psi_l), inp,
+          {'eta_given': case.get('eta_form', 'matrix'), 'chi': psi_d})
+    elif kind in HIER:
+        flat_e = call(cpm.compute_individual_parameters, params, eta.flatten(), cov, return_eta=True)
+        S(ctx, 'C07.equiv_indiv_return_eta/' + cname,
+          core.close(flat_e if isinstance(flat_e, str) else np.asarray(flat_e, float), eta), inp,
+          {'flat_eta': flat_e})
     # ---- zero beta / zero covariates: the wrapped model itself
     if case['boundary'].startswith(('beta=0', 'cov=0')):
         b_ll = call(base.compute_log_likelihood, theta0.flatten(), obs)
@@ -565,14 +685,14 @@ def _run_case(ctx, chi, case):
 
     # ---- the covariate model as a sub-model of a ComposedPopulationModel (where chi uses it)
     if finite and scales_pos and not tg_tail and case['fd_seed'] % 3 == 0:
-        composed_check(ctx, chi, cpm, kind, cname, params, obs, cov, w, n_ids, n_dim, inp)
+        composed_check(ctx, chi, cpm, kind, cname, params, obs, cov, w, n_ids, n_dim, inp, th, eta)
 
     # ---- sampling: exact replay of the primitive stream
     sample_check(ctx, chi, cpm, base, kind, cname, params, th, cov, n_ids, n_dim, pd_, n_cov, sel_l, covl,
                  case['seed'], inp, scales_pos)
 
 
-def composed_check(ctx, chi, cpm, kind, cname, params, obs, cov, w, n_ids, n_dim, inp):
+def composed_check(ctx, chi, cpm, kind, cname, params, obs, cov, w, n_ids, n_dim, inp, th, eta):
     """[covariate model, GaussianModel(1)] composed: value and reduced gradient are those of the parts,
     laid out as n_hierarchical_parameters announces (the call site of DESIGN Appendix A #3)"""
     g1 = chi.GaussianModel(1)
@@ -584,6 +704,27 @@ def composed_check(ctx, chi, cpm, kind, cname, params, obs, cov, w, n_ids, n_dim
     full_p = np.concatenate([params, gpar])
     full_o = np.hstack([obs, gobs])
     full_w = None if w is None else np.hstack([w, wg])
+    # individual parameters through the composed model, both settings of return_eta (dummy entries in the
+    # columns of a pooled / heterogeneous sub-model, as HierarchicalLogLikelihood hands them over)
+    eta_full = np.hstack([np.full((n_ids, n_dim), -7.0) if kind in ('P', 'H') else eta,
+                          np.linspace(0.1, 0.6, n_ids).reshape(n_ids, 1)])
+    if kind == 'P':
+        own = th[:, 0, :]
+    elif kind == 'H':
+        own = np.array([th[i, i, :] for i in range(n_ids)])
+    elif kind == 'Gnc':
+        own = th[:, 0, :] + th[:, 1, :] * eta
+    elif kind == 'LNnc':
+        own = np.exp(th[:, 0, :] + th[:, 1, :] * eta)
+    else:
+        own = eta
+    for flag in (False, True):
+        got = call(cm.compute_individual_parameters, full_p, eta_full, covariates=cov, return_eta=flag)
+        first = own if (not flag or kind in ('P', 'H')) else eta
+        exp_psi = np.hstack([first, eta_full[:, n_dim:]])
+        S(ctx, 'C07.composed/' + cname, core.close(got if isinstance(got, str) else np.asarray(got, float),
+                                                    exp_psi), inp,
+          {'compute_individual_parameters': got, 'return_eta': flag, 'expected': exp_psi})
     ll = call(cm.compute_log_likelihood, full_p, full_o, covariates=cov)
     part = call(lambda: float(cpm.compute_log_likelihood(params, obs, cov))
                 + float(g1.compute_log_likelihood(gpar, gobs)))
@@ -788,6 +929,7 @@ def run(ctx):
     for k, spec in enumerate(CORPUS):
         ctx.guard(run_case, ctx, chi, corpus_case(ctx, spec, k))
     ctx.guard(hetero_set_n_ids, ctx, chi)
+    ctx.guard(set_n_ids_raise_witness, ctx, chi)
     n = 700 if ctx.tier == 'quick' else 24000
     for i in range(n):
         rng = ctx.sub_rng(i)
@@ -796,8 +938,7 @@ def run(ctx):
 
 
 def hetero_set_n_ids(ctx, chi):
-    """a heterogeneous model wrapped first and sized afterwards (what a hierarchical likelihood does);
-    the model carries the code as it is AND the proposed repair — chi has to match one of them"""
+    """a heterogeneous model wrapped first and sized afterwards (what a hierarchical likelihood does)"""
     for n0, n_dim, n_cov, n_ids in ((1, 1, 1, 2), (1, 2, 1, 3), (2, 2, 2, 2), (3, 1, 2, 2), (1, 3, 2, 4)):
         inp = {'kind': 'H', 'n_ids_at_construction': n0, 'n_dim': n_dim, 'n_cov': n_cov, 'n_ids': n_ids,
                'history': 'wrap, then set_n_ids'}
@@ -815,13 +956,30 @@ def hetero_set_n_ids(ctx, chi):
             out = call(cpm.compute_individual_parameters, x, np.zeros((n_ids, n_dim)), cov)
             obs = [n, len(names), not isinstance(out, str)]
             as_is = [mo[0], mo[1], mo[2]]
-            ctx.agree('C07.setnids', obs, as_is if obs == as_is else [mo[3], mo[4], mo[5]], inp)
+            ctx.agree('C07.setnids', obs, as_is, inp)
             ok = (n == ref.n_parameters() and len(names) == n and not isinstance(out, str))
             detail = {'n_parameters': n, 'n_names': len(names), 'expected': ref.n_parameters(), 'evaluate': out}
         except Exception as e:  # noqa
             ok, detail = False, {'raised': repr(e)[:200]}
         S(ctx, 'C07.set_n_ids/HeterogeneousModel', ok, inp, detail)
         ctx.case('hetero-set_n_ids')
+
+
+def set_n_ids_raise_witness(ctx, chi):
+    """witness of C07_set_n_ids_raise_counterexample: a raising set_n_ids and user-chosen names"""
+    inp = {'kind': 'H', 'n_dim': 1, 'n_cov': 1, 'n_ids_at_construction': 2,
+           'history': ['set_population_parameters([[1, 0]])', "set_parameter_names(['mine1', 'mine2', 'b'])",
+                       'set_n_ids(1)']}
+    cpm = chi.CovariatePopulationModel(chi.HeterogeneousModel(1, n_ids=2), chi.LinearCovariateModel(1))
+    cpm.set_population_parameters([[1, 0]])
+    cpm.set_parameter_names(['mine1', 'mine2', 'b'])
+    before = (cpm.n_parameters(), list(cpm.get_parameter_names()))
+    out = call(cpm.set_n_ids, 1)
+    S(ctx, 'C07.set_n_ids/outcome', out == 'err:valueError', inp, {'raised': out})
+    after = (cpm.n_parameters(), list(cpm.get_parameter_names()))
+    S(ctx, 'C07.set_n_ids/unchanged_after_raise/user_names', before == after, inp,
+      {'names_before': before[1], 'names_after': after[1]})
+    ctx.case('set_n_ids-raise-witness')
 
 
 def replay(ctx, data):
